@@ -64,19 +64,26 @@ def gen_lines(rng, n_top: int):
         n = rng.choice([0, 0, 1, 2, 3, 4])
         stage = 0  # 0: meta, 1: postings
         in_posting = False
+        if kind == 'txn' and rng.random() < 0.25:
+            # a comment between the last meta item and the first posting (the postings' placeholder sits there)
+            lines.append({'t': 'model', 'ind': True, 'level': 1, 'text': '  k%sx: 1' % rng.choice('abc')})
+            comment(True)
+            lines.append({'t': 'model', 'ind': True, 'level': 1, 'text': '  Assets:A%d 1 USD' % rng.randrange(3)})
+            stage = 1
+            in_posting = True
         for _ in range(n):
             r = rng.random()
             if r < 0.35:
                 comment(True)
             elif r < 0.55 and stage == 0:
-                lines.append({'t': 'model', 'ind': True, 'level': 1, 'text': '  k%s: 1' % rng.choice('abc') + 'x'})
+                lines.append({'t': 'model', 'ind': True, 'level': 1, 'text': '  k%sx: 1' % rng.choice('abc')})
             elif kind == 'txn' and r < 0.85:
                 stage = 1
                 in_posting = True
                 lines.append({'t': 'model', 'ind': True, 'level': 1,
                               'text': rng.choice(['  ', '    ']) + 'Assets:A%d 1 USD' % rng.randrange(3)})
             elif in_posting:
-                lines.append({'t': 'model', 'ind': True, 'level': 2, 'text': '      m%s: 2' % rng.choice('abc') + 'y'})
+                lines.append({'t': 'model', 'ind': True, 'level': 2, 'text': '      m%sy: 2' % rng.choice('abc')})
             else:
                 comment(True)
 
@@ -160,18 +167,138 @@ def expected_attribution(lines):
     for s, e, ind in sorted(models):
         ends.setdefault(e, []).append((s, ind))
     out = {}
+    NEIGHBOURS.clear()
     for (a, b) in blocks:
         ind = lines[a]['ind']
         below = lines[b + 1] if b + 1 < n else None
+        cands = [s for (s, mind) in ends.get(a - 1, []) if mind == ind] if a > 0 else []
+        # both neighbours the rule allows (hand-over histories), and a neighbour of the other class below
+        NEIGHBOURS[a] = {
+            'below': b + 1 if below is not None and below['t'] == 'model' and below['ind'] == ind else None,
+            'below_other': b + 1 if below is not None and below['t'] == 'model' and below['ind'] != ind else None,
+            'above': min(cands) if cands else None}
         if below is not None and below['t'] == 'model' and below['ind'] == ind:
             out[a] = ('lead', b + 1)
             continue
-        cands = [s for (s, mind) in ends.get(a - 1, []) if mind == ind] if a > 0 else []
         if cands:
             out[a] = ('trail', min(cands))
             continue
         out[a] = ('standalone',)
     return out, blocks
+
+
+NEIGHBOURS: dict = {}     # filled by expected_attribution for the layout it was last called on
+
+
+def ambiguous_lines(lines):
+    """paragraphs in which an unindented comment is directly followed by an indented line: whether the directive
+    above extends over both is not fixed by the documented rule"""
+    amb = set()
+    for i in range(len(lines) - 1):
+        if lines[i]['t'] == 'comment' and not lines[i]['ind'] and lines[i + 1]['ind'] and lines[i + 1]['t'] != 'blank':
+            lo = i
+            while lo > 0 and lines[lo - 1]['t'] != 'blank':
+                lo -= 1
+            hi = i
+            while hi + 1 < len(lines) and lines[hi + 1]['t'] != 'blank':
+                hi += 1
+            amb.update(range(lo, hi + 1))
+    return amb
+
+
+def run_handover(doc, spec):
+    """Hand-over history for one comment: the two models the documented rule allows as owners (directly below /
+    directly above, same indentation class) claim and release it in turn, with a detour through a standalone
+    entry, for `rounds` rounds.  Runs under the caller's Tap (primitives go to doc.log).
+    Returns the list of monitor messages: every claim in the rounds must return the comment, every
+    unclaim -> claim pair must restore the previous owner, a neighbour of the other class must get None."""
+    _, _, models, _, _, sc, ic, Repeated = _imp()
+    store = doc.file.token_store
+    line_of = lambda t: store.get_position(t).line
+    com = [t for t in store if isinstance(t, models.BlockComment) and line_of(t) == spec['a']]
+    if not com:
+        return []
+    c = com[0]
+    by_line = {}
+    for path, m in doc.nodes():
+        if isinstance(m, sc.SurroundingCommentsMixin) and hasattr(m, '_leading_comment_pivot'):
+            by_line[line_of(m._leading_comment_pivot)] = m
+    below = by_line.get(spec['below']) if spec['below'] is not None else None
+    above = by_line.get(spec['above']) if spec['above'] is not None else None
+    other = by_line.get(spec['below_other']) if spec.get('below_other') is not None else None
+    msgs = []
+    if c.claimed:
+        return msgs
+
+    def wrappers():
+        out = []
+        for path, m, name in doc.targets()[1]:
+            w = getattr(m, name, None)
+            if w is not None:
+                out.append((path, w))
+        return out
+
+    def claim(m, which, why):
+        f = m.claim_leading_comment if which == 'lead' else m.claim_trailing_comment
+        try:
+            r = f()
+        except Exception as e:
+            msgs.append(f'{why}: claim_{which}ing_comment raised {type(e).__name__}: {e}')
+            return False
+        if r is not c:
+            msgs.append(f'{why}: claim_{which}ing_comment returned {r!r} instead of the adjacent comment')
+            return False
+        return True
+
+    def unclaim(m, which):
+        k0 = len(doc.log)
+        r = (m.unclaim_leading_comment if which == 'lead' else m.unclaim_trailing_comment)()
+        return r, k0
+
+    if other is not None and other is not below:
+        r = other.claim_leading_comment()
+        if r is not None:
+            msgs.append('a model of the other indentation class directly below claimed the comment as its '
+                        'leading comment')
+            other.unclaim_leading_comment()
+    owners = [(m, w) for m, w in ((below, 'lead'), (above, 'trail')) if m is not None]
+    if spec.get('first') == 'above':
+        owners.reverse()
+    for rnd in range(spec['rounds']):
+        for m, which in owners:
+            if not claim(m, which, f'round {rnd}'):
+                return msgs
+            # unclaim -> claim restores the owner
+            r, k0 = unclaim(m, which)
+            if r is not c:
+                msgs.append(f'round {rnd}: unclaim_{which}ing_comment returned {r!r}')
+                return msgs
+            if not claim(m, which, f'round {rnd}, unclaim followed by claim'):
+                return msgs
+            if k0 < len(doc.log) and doc.log[k0]['op'] == 'unclaim':
+                doc.log[k0]['mode'] = 2
+            unclaim(m, which)
+        if spec.get('detour'):
+            done = False
+            for path, w in wrappers():
+                try:
+                    got = w.claim_interleaving_comments([c])
+                except ValueError:
+                    continue
+                if len(got) and any(x is c for x in got):
+                    done = True
+                    if not c.claimed:
+                        msgs.append(f'round {rnd}: standalone claim through {path} did not set the claimed flag')
+                    try:
+                        w.unclaim_interleaving_comments([c])
+                    except Exception as e:
+                        msgs.append(f'round {rnd}: unclaiming the standalone entry raised {type(e).__name__}: {e}')
+                        return msgs
+                    break
+            if not done and owners:
+                msgs.append(f'round {rnd}: no repeated field accepted the comment as a standalone entry')
+                return msgs
+    return msgs
 
 
 # ---------------------------------------------------------------------------------------------
@@ -486,9 +613,13 @@ def comments_by_index(doc: Doc, idxs):
 def apply_op(doc: Doc, op):
     """Runs one API call under the tap. Returns (exception name or None, extra) ; doc.log holds the primitives."""
     name, path, arg = op
-    tgt = resolve(doc, path)
     doc.log = []
     extra = {}
+    if name == 'handover':
+        with Tap(doc):
+            extra['handover'] = run_handover(doc, arg)
+        return None, extra
+    tgt = resolve(doc, path)
     need = {'claim_leading': 'claim_leading_comment', 'claim_trailing': 'claim_trailing_comment',
             'unclaim_leading': 'unclaim_leading_comment', 'unclaim_trailing': 'unclaim_trailing_comment',
             'reclaim_leading': 'claim_leading_comment', 'reclaim_trailing': 'claim_trailing_comment',
@@ -838,6 +969,21 @@ def run_document(ctx, prop: str, lines, crlf, final_nl, ops_seed, n_ops, witness
         plans.append((False, [['claim_inter', path, None], ['reclaim_inter', path, None],
                               ['unclaim_inter', path, None], ['auto2', path.rsplit('.', 1)[0], None],
                               ['auto2', 'F', None]]))
+    amb = ambiguous_lines(lines)
+    hand = [a for a in sorted(NEIGHBOURS) if a not in amb and
+            (NEIGHBOURS[a]['below'] is not None or NEIGHBOURS[a]['above'] is not None
+             or NEIGHBOURS[a]['below_other'] is not None)]
+    if got_blocks_ok(Doc(text, False), blocks):
+        # all comments with two admissible owners, plus a sample of the others
+        both = [a for a in hand if NEIGHBOURS[a]['below'] is not None and NEIGHBOURS[a]['above'] is not None]
+        rest = [a for a in hand if a not in both]
+        for a in both[:6] + (rest if len(rest) <= 3 else rng.sample(rest, 3)):
+            spec = dict(NEIGHBOURS[a], a=a, rounds=rng.choice([2, 3, 4]), first=rng.choice(['below', 'above']),
+                        detour=rng.random() < 0.6)
+            plans.append((False, [['handover', 'F', spec], ['auto2', 'F', None]]))
+            ctx.dist('handover=' + ('both' if spec['below'] is not None and spec['above'] is not None else
+                                    'below' if spec['below'] is not None else
+                                    'above' if spec['above'] is not None else 'other-class'))
     for flag, plan in plans:
         doc = Doc(text, flag)
         full0 = doc.full()
@@ -880,6 +1026,8 @@ def run_document(ctx, prop: str, lines, crlf, final_nl, ops_seed, n_ops, witness
             if 'restore' in extra and extra['restore'][0] != extra['restore'][1]:
                 mon('C14', 'C14:unclaim-claim', f'{op[0]} on {op[1]}: unclaim followed by claim does not restore '
                     f'the attribution', w)
+            for m_ in extra.get('handover', []):
+                mon('C14', 'C14:hand-over', f'hand-over of the comment at line {op[2]["a"]} between its neighbours: {m_}', w)
             if op[0].startswith('reclaim') and exc:
                 mon('C14', 'C14:unclaim-claim', f'{op[0]} on {op[1]}: claiming back what was just unclaimed raised '
                     f'{extra.get("exc_text")}', w)
@@ -904,6 +1052,13 @@ def run_document(ctx, prop: str, lines, crlf, final_nl, ops_seed, n_ops, witness
             cases.append((coq_case(d0.full(), d0.table0(), hists[flag], patched),
                           dict(wit, flag=flag, histories=metas[flag]), len(hists[flag])))
     return cases
+
+
+def got_blocks_ok(doc: Doc, blocks) -> bool:
+    """the generator's idea of the comment blocks is the lexer's"""
+    _, _, models, _, _, _, _, _ = _imp()
+    store = doc.file.token_store
+    return [store.get_position(t).line for t in store if isinstance(t, models.BlockComment)] == [a for a, _ in blocks]
 
 
 def rule_check(ctx, doc: Doc, lines, exp, blocks, mon):
@@ -933,16 +1088,7 @@ def rule_check(ctx, doc: Doc, lines, exp, blocks, mon):
     ends_of = {a: b for a, b in blocks}
     # an unindented comment directly followed by an indented line: whether the directive above extends over both
     # is not fixed by the documented rule (the grammar lets it) -> no verdict for the comments of that paragraph
-    ambiguous = set()
-    for i in range(len(lines) - 1):
-        if lines[i]['t'] == 'comment' and not lines[i]['ind'] and lines[i + 1]['ind'] and lines[i + 1]['t'] != 'blank':
-            lo = i
-            while lo > 0 and lines[lo - 1]['t'] != 'blank':
-                lo -= 1
-            hi = i
-            while hi + 1 < len(lines) and lines[hi + 1]['t'] != 'blank':
-                hi += 1
-            ambiguous.update(range(lo, hi + 1))
+    ambiguous = ambiguous_lines(lines)
     for a, e in exp.items():
         g = got.get(a)
         if g == e:
@@ -991,6 +1137,13 @@ FIXED = [
     (['  ; ind', '2000-01-02 close Assets:A'], False, True),
     (['2000-01-01 *', '  ka: 1', '  ; c', '', '; z', ''], False, True),
     (['; a', '  ; b', '2000-01-01 open Assets:A', '  ; c', '; d'], True, True),
+    # hand-over layouts: comment between meta item / first posting, posting / posting, posting meta / posting,
+    # meta / meta, directive / directive
+    (['2000-01-01 *', '    aaa: 1', '    ; note', '    Assets:Foo  1.00 USD', '    ; mid', '    Assets:Bar  -1.00 USD'],
+     False, True),
+    (['2000-01-01 *', '  ka: 1', '  ; m1', '  kb: 2', '  ; m2', '  Assets:A 1 USD', '      mb: 2', '  ; m3',
+      '  Assets:B 1 USD'], False, True),
+    (['2000-01-01 open Assets:A', '; between', '2000-01-02 close Assets:A', '; between2', 'option "k" "v"'], False, False),
 ]
 
 
@@ -1082,11 +1235,11 @@ def run(ctx: common.Ctx):
     ctx.rule = RULE
     ctx.assumptions += ASSUME
     ctx.require_coq(['properties/C14'], extra_targets=['CommentsRun'])
-    run_all(ctx, 'C14', 700, 4000)
+    run_all(ctx, 'C14', 400, 4000)
 
 
 def search(ctx: common.Ctx):
-    run_all(ctx, 'C14', 700, 4000)
+    run_all(ctx, 'C14', 400, 4000)
 
 
 def replay(ctx, path):
